@@ -7,7 +7,7 @@ From Coq Require Import Reals Lra List Lia ZArith.
 Import ListNotations.
 From Coquelicot Require Import Coquelicot.
 From PD Require Import Model.Num Model.NumZ Model.Perturbed Gen.Gen_spherical Gen.Gen_spherical_index
-  Gen.Gen_perturbed Proofs.PerturbedSeries.
+  Gen.Gen_perturbed Proofs.PerturbedSeries Proofs.PerturbedCurv.
 Local Open Scope R_scope.
 
 (* ---- curvature3d_additive ---- *)
@@ -231,15 +231,12 @@ Proof.
   rewrite dist2d_series, curv2d_series, vol2d_closed, perim_approx2d_closed.
   rewrite (series2_zero _ _ _ Hz), (series2_zero _ _ _ Hz), (sumsq_zero _ Hz), (sumsq_w_zero _ _ Hz).
   repeat split; try (field; exact Hr).
-  unfold line2d. change (fold_modes (line2d_step phi) 1 l (1, 0)) with (line2d_acc phi l).
-  rewrite line2d_acc_series.
   assert (Hd : forall n, dseries2 w_one phi n l = 0).
   { clear Hr. induction Hz as [|ab l Hab _ IH]; intros n; simpl; [reflexivity|].
     rewrite IH, Hab. unfold dterm2. cbn [fst snd]. ring. }
-  rewrite (series2_zero _ _ _ Hz), Hd. cbv zeta. cbn [fst snd].
+  rewrite line2d_closed, (series2_zero _ _ _ Hz), Hd.
   pose proof (sin2_cos2 phi) as H. unfold Rsqr in H.
-  replace ((0 * cos phi - (1 + 0) * sin phi) * (0 * cos phi - (1 + 0) * sin phi)
-           + (0 * sin phi + (1 + 0) * cos phi) * (0 * sin phi + (1 + 0) * cos phi)) with 1 by nra.
+  match goal with |- sqrt ?x = 1 => replace x with 1 by nra end.
   apply sqrt_1.
 Qed.
 
